@@ -55,7 +55,7 @@ def main():
             cmd = ["/venv/bin/python", os.path.join(ROOT, "run_check.py"), args.pid, "--tier", args.tier, "--repo", copy]
             if args.examples:
                 cmd += ["--examples", str(args.examples)]
-            env = dict(os.environ, VERIF_SHRINK_S="5")
+            env = dict(os.environ, VERIF_SHRINK_S="5", VERIF_OUT_DIR=os.path.join(scratch, "out"))
             c = subprocess.run(cmd, cwd=ROOT, capture_output=True, text=True, env=env)
             sigs = [l for l in c.stdout.splitlines() if l.startswith("violation signature=")]
             verdict = {0: "MISSED", 1: "CAUGHT", 2: "HARNESS-ERROR"}.get(c.returncode, f"exit{c.returncode}")
